@@ -26,18 +26,38 @@ func MustParseDate(s string) Date {
 func ParseDate(s string) (Date, error) {
 	if s == "" {
 		return Date{}, fmt.Errorf("blank date string")
-	} else if date, err := time.ParseInLocation("2006-01-02", s, time.Local); err != nil {
+	} else if date, err := time.Parse("2006-01-02", s); err != nil {
 		return Date{}, err
 	} else {
-		return Date(date), nil
+		return Date(startOfDay(date.Date())), nil
 	}
+}
+
+// Returns local midnight of the civil day or, in time zones where a DST transition skips
+// local midnight (e.g. America/Santiago, America/Havana), the first whole hour of that day
+// that does exist - time.Date would otherwise resolve 00:00 to 23:00 on the previous day.
+func startOfDay(year int, month time.Month, day int) time.Time {
+	date := time.Date(year, month, day, 0, 0, 0, 0, time.Local)
+	y, m, d := time.Date(year, month, day, 0, 0, 0, 0, time.UTC).Date()
+
+	for h := 1; h < 24; h++ {
+		if yy, mm, dd := date.Date(); yy == y && mm == m && dd == d {
+			return date
+		}
+
+		date = time.Date(year, month, day, h, 0, 0, 0, time.Local)
+	}
+
+	if yy, mm, dd := date.Date(); yy == y && mm == m && dd == d {
+		return date
+	}
+
+	return time.Date(year, month, day, 0, 0, 0, 0, time.Local)
 }
 
 // Utility function to explicitly construct a Date from year, month and day.
 func ToDate(year int, month time.Month, day int) Date {
-	date := time.Date(year, month, day, 0, 0, 0, 0, time.Local)
-
-	return Date(date)
+	return Date(startOfDay(year, month, day))
 }
 
 // Returns true if the date is the zero value.
@@ -145,10 +165,10 @@ func (d *Date) UnmarshalUT0311L0x(bytes []byte) (any, error) {
 		}
 	}
 
-	if date, err := time.ParseInLocation("20060102", decoded, time.Local); err != nil {
+	if date, err := time.Parse("20060102", decoded); err != nil {
 		return &Date{}, nil
 	} else {
-		v := Date(date)
+		v := Date(startOfDay(date.Date()))
 
 		return &v, nil
 	}
@@ -175,12 +195,12 @@ func (d *Date) UnmarshalJSON(bytes []byte) error {
 		return nil
 	}
 
-	date, err := time.ParseInLocation("2006-01-02", s, time.Local)
+	date, err := time.Parse("2006-01-02", s)
 	if err != nil {
 		return err
 	}
 
-	*d = Date(date)
+	*d = Date(startOfDay(date.Date()))
 
 	return nil
 }
